@@ -279,9 +279,15 @@ def main():
     xres = Result()
 
     def guard_task():
-        # guard on: full and default sets
+        # guard on: full and default sets, plus std-without-alloc and a no-alloc set (the probes have guard-on-only
+        # sections that need the hooks: the end of the sequence space through the allocating forms)
+        extra_sets = [tuple(f for f in feats if f in ("std", "x25519")), tuple(f for f in feats if f in ("x25519",))]
+        if tier == "thorough":
+            extra_sets += [tuple(f for f in feats if f in ("std", "p256", "p384")), tuple(f for f in feats if f in ("alloc", "p521"))]
         for s in (full, dflt):
             do_subset(s, g, expect_lines, ["check", "probe"] + (["test"] if tier == "thorough" or s == dflt else []), gres, guard=True)
+        for s in extra_sets:
+            do_subset(s, g, expect_lines, ["probe"], gres, guard=True)
 
     def extra_task():
         x = os.path.join(ROOT, "target", "c17x")
@@ -332,7 +338,7 @@ def main():
                        "samples": res.samples[:6] + [{"subset": ",".join(s) or "(none)", "steps": "probe" + ("+check+test" if s in heavy else "")} for s in order[:2] + order[-2:]],
                        "exhaustive": True, "feature_subsets": len(subsets), "subsets_with_probes": len(subsets), "subsets_with_crate_tests": len(heavy), "features": feats,
                        "distinct_outcomes": len(res.outcomes), "outcomes": res.outcomes, "machinery_errors": len(res.mach)},
-          "assumptions": ["cargo and rustc resolve features as documented; kat_tests::kat_test is skipped because its vector file is empty in this sandbox", "guard-on behaviour is compared on the full and default sets only"],
+          "assumptions": ["cargo and rustc resolve features as documented; kat_tests::kat_test is skipped because its vector file is empty in this sandbox", "guard-on behaviour is compared on the full and default sets and on two (thorough: four) further subsets only"],
           "wall_s": round(time.time() - t0, 2), "violations": nviol}
     os.makedirs(os.path.join(ROOT, "evidence"), exist_ok=True)
     json.dump(ev, open(os.path.join(ROOT, "evidence", "C17.json"), "w"), indent=1)
